@@ -3,8 +3,8 @@ import re
 from runner import Stream
 import vlib, gens
 
-PROP_MODULES = ["Vlsp.Props.C02", "Vlsp.Props.C02Ast", "Vlsp.Props.C02Gha", "Vlsp.Props.C02Go", "Vlsp.Props.C02Pypi"]
-EXTRA_SCAN = ["Vlsp/Spec/Ranges.lean", "Vlsp/Spec/NpmDenote.lean", "Vlsp/Lemmas/PreFloor.lean"]
+PROP_MODULES = ["Vlsp.Props.C02", "Vlsp.Props.C02Ast", "Vlsp.Props.C02AstCrates", "Vlsp.Props.C02Gha", "Vlsp.Props.C02Go", "Vlsp.Props.C02Pypi"]
+EXTRA_SCAN = ["Vlsp/Spec/Ranges.lean", "Vlsp/Spec/NpmDenote.lean", "Vlsp/Spec/CratesDenote.lean", "Vlsp/Lemmas/PreFloor.lean"]
 RULE = ("(a) semver parse/Ord lattice; (b) per ecosystem: specs from the range grammar (all operators, 1-3 component "
         "operands, wildcards, hyphen, AND/OR, layout) + junk stream, against the version lattice (components {0,1,2,10}, "
         "prereleases, build); each (spec, version) is run through version_exists and compare_to_latest, compared with "
@@ -22,9 +22,9 @@ VALID_L = {"npm": "1.0.0", "pnpm": "1.0.0", "jsr": "1.0.0", "crates": "1.0.0", "
 
 
 def evidence_notes():
-    return {"npm_spec_texts_by_reading": dict(AST_COUNT),
+    return {"spec_texts_by_reading": dict(AST_COUNT),
             "meaning": "'same' = the code's parser (model) and the reference parser read the spec text as the same range: for these texts "
-                       "c02_npm_same_reading makes the verdict equality a theorem for EVERY build-free strict candidate version"}
+                       "c02_npm_same_reading / c02_crates_same_reading make the verdict equality a theorem for EVERY build-free strict candidate version"}
 
 
 def finding_class(eco, spec, v, impl, ref, frag):
@@ -127,18 +127,19 @@ def streams(ctx):
                     return ("violation", f"{eco}: spec {s!r} version {v!r}: implementation says {iv}, the ecosystem's semantics say {ref}")
                 der.append({"req": vlib.line("spec.judge", eco, s, v), "check": check,
                             "history": [cs[i]["req"], cs[i + 1]["req"]], "index": i})
-                if eco == "npm" and s not in seen_ast:
+                if eco in ("npm", "crates") and s not in seen_ast:
                     # the premise of c02_npm_same_reading, evaluated on this spec text: inside the fragment the code's parser (model)
                     # and the reference parser must read it as the SAME range; the theorem then covers every candidate version
                     seen_ast.add(s)
 
-                    def check_ast(o, s=s):
+                    def check_ast(o, s=s, eco=eco):
                         reading, frag = o.split(" ")
-                        AST_COUNT[reading] = AST_COUNT.get(reading, 0) + 1
+                        AST_COUNT.setdefault(eco, {})
+                        AST_COUNT[eco][reading] = AST_COUNT[eco].get(reading, 0) + 1
                         if frag == "T" and "+" not in s and reading != "same":
-                            return ("model", f"npm spec {s!r} is in the fragment but the code's parser and the reference parser read it differently ({reading})")
+                            return ("model", f"{eco} spec {s!r} is in the fragment but the code's parser and the reference parser read it differently ({reading})")
                         return None
-                    der.append({"req": vlib.line("c02.ast", s), "check": check_ast, "history": [cs[i]["req"]], "index": i})
+                    der.append({"req": vlib.line("c02.ast" if eco == "npm" else "c02.ast.crates", s), "check": check_ast, "history": [cs[i]["req"]], "index": i})
             return der
         out.append(Stream(f"match-{eco}", cases, nontrivial=lambda c, o: o in ("T", "F", "latest", "outdated", "newer") and c.get("tag") is not None,
                           derive=derive))
